@@ -145,6 +145,39 @@ def judge_batch_sizes(gc):
     return out
 
 
+def judge_count_path(gc):
+    """thrown by COUNT (what a run does): the N events are the events of the 4N numbers the generator hands out, each
+    used as one coordinate of one event, untransformed -- whatever the layout they are drawn in. The generator is owned
+    (it returns a fixed pool); the reference is the explicit throw of the numbers it returned."""
+    from ..own import RngStub
+
+    out = []
+    for n in (1, 4, 9):
+        flat = np.resize(POOL.T.ravel(), 4 * n)
+        for via in ("throw", "call"):
+            g = make_geom(gc)
+            stub = RngStub(fn=lambda i, m, _f=flat: np.resize(_f, m))
+            with stub.installed(), np.errstate(all="ignore"):
+                try:
+                    g.throw(n) if via == "throw" else g(n)
+                except Exception as ex:
+                    out.append(("count_path_uses_the_generator_numbers", f"{via}({n})", "events", f"{type(ex).__name__}: {str(ex)[:80]}"))
+                    continue
+            got = (np.sort(np.asarray(g.thetaTrSubV, dtype=float)).tobytes(), np.sort(np.asarray(g.phiS, dtype=float)).tobytes(), np.sort(np.asarray(g.losPathLen, dtype=float)).tobytes(), np.sort(np.asarray(g.phiTrSubV, dtype=float)).tobytes())
+            rec = np.concatenate([np.asarray(r, dtype=float).ravel() for r in stub.returned]) if stub.returned else np.zeros(0)
+            ok = False
+            if rec.size == 4 * n:
+                for V in (rec.reshape(4, n), rec.reshape(n, 4).T):
+                    h = make_geom(gc)
+                    with np.errstate(all="ignore"):
+                        h.throw(V.copy())
+                    ref = (np.sort(np.asarray(h.thetaTrSubV, dtype=float)).tobytes(), np.sort(np.asarray(h.phiS, dtype=float)).tobytes(), np.sort(np.asarray(h.losPathLen, dtype=float)).tobytes(), np.sort(np.asarray(h.phiTrSubV, dtype=float)).tobytes())
+                    ok = ok or ref == got
+            if not ok:
+                out.append(("count_path_uses_the_generator_numbers", f"{via}({n})", f"the events of the {4 * n} numbers drawn", f"{rec.size} numbers drawn; events differ from their explicit throw"))
+    return out
+
+
 def judge_two_instances(gc):
     """a second, differently configured geometry object constructed (and used) while the first is alive does not change
     the first one's estimate"""
@@ -337,7 +370,7 @@ def _one_inner(args):
     idx = list(range(0, U.shape[1], max(1, U.shape[1] // 40)))
     vs = judge_single_event_weight(gc, U, idx)
     v2, n2, k2 = judge_region(gc, 6 if tier == "quick" else 8)
-    v2 = list(v2) + judge_batch_sizes(gc) + judge_two_instances(gc)
+    v2 = list(v2) + judge_batch_sizes(gc) + judge_two_instances(gc) + judge_count_path(gc)
     res = dict(gc=gc, pw=[(c, U[:, i].tolist(), e, o) for c, i, e, o in v1[:10]], sw=[(c, U[:, i].tolist(), e, o) for c, i, e, o in vs[:10]], rg=v2, info=info, n_pw=int(U.shape[1]), n_sw=len(idx), n_rg=n2, kept_rg=k2, quad=None)
     if math.degrees(gc["cone"]) <= 60.0 + 1e-9:
         levels = [(16, 32), (32, 64)] if tier == "quick" else [(16, 32), (32, 64), (64, 128)]
@@ -347,7 +380,27 @@ def _one_inner(args):
     return res
 
 
+RUN_SPECS = [
+    dict(mode="Diffuse", optical=True, radio=True, spectrum="mono", logE=10.5, altitude=33.0, n=150),  # many taus decay above the detector
+    dict(mode="Diffuse", optical=True, radio=False, spectrum="power", n=150),
+    dict(mode="Diffuse", optical=False, radio=True, spectrum="mono", logE=9.0, altitude=400.0, n=150),
+]
+
+
+def judge_run_header(spec):
+    """the geometry-only integral a full run reports is this estimator over the run's own thrown events (nothing else
+    the run knows -- decay points, signals -- enters it); reference integral of C03's wiring clause"""
+    from .c03 import judge_wiring
+
+    v, _, _ = judge_wiring(dict(spec))
+    return [(c, e, o) for c, e, o in v if c == "header_geo_integral"]
+
+
 def run(ctx):
+    for spec in RUN_SPECS:
+        ctx.tick(spec["n"], ("run_header", spec["altitude"] if "altitude" in spec else 525.0))
+        for c, e, o in judge_run_header(spec):
+            ctx.violation("run_reports_the_estimator_of_its_thrown_events", {"kind": "run_header", "spec": spec, "gc": None}, e, o)
     cfgs = config_lattice(ctx.tier)
     ctx.cov["configurations"] = len(cfgs)
     results = par.pmap(_one, [(gc, ctx.tier) for gc in cfgs])
@@ -388,6 +441,8 @@ def run(ctx):
 def replay(case):
     gc = case["gc"]
     k = case["kind"]
+    if k == "run_header":
+        return [("run_reports_the_estimator_of_its_thrown_events", e, o) for c, e, o in judge_run_header(case["spec"])]
     if k == "raise":
         r = _one((gc, case.get("tier", "quick")))
         return [("no_exception_from_geometry_or_integral", "no exception", r["raised"])] if r.get("raised") else []
@@ -400,7 +455,7 @@ def replay(case):
         return [(c, e, o) for c, i, e, o in judge_single_event_weight(gc, U, [0])]
     if k == "rg":
         v, _, _ = judge_region(gc, 6 if case.get("tier", "quick") == "quick" else 8)
-        v = list(v) + judge_batch_sizes(gc) + judge_two_instances(gc)
+        v = list(v) + judge_batch_sizes(gc) + judge_two_instances(gc) + judge_count_path(gc)
         return [(c, e, o) for c, name, e, o in v if name == case["name"]]
     if k == "quad":
         v, _, _ = judge_quadrature(gc, [tuple(x) for x in case["levels"]], tuple(case["m4s"]))
